@@ -81,7 +81,11 @@ Section Top.
                            (in_cid U) (in_cid U) args fuel
                            (obj_conf U' rpoly (in_cid U) _ args (ext_flat_in s) Hm) Hf) as HD.
     rewrite senc_obj in HD. unfold U' in HD at 2 3. rewrite ext_flat_in, ext_name_in in HD. fold U' in HD.
-    rewrite <- sbody_eq in HD. unfold d2o. rewrite HD, vnorm_obj. reflexivity.
+    rewrite <- sbody_eq in HD.
+    assert (Hnn : jv_is_null (sbody c U' st (sg_params s) args) = false)
+      by (unfold sbody; destruct (c_list c); reflexivity).
+    rewrite Hnn, andb_false_r. cbn [andb].
+    unfold d2o. rewrite HD, vnorm_obj. reflexivity.
   Qed.
 
   (** ** responses *)
@@ -224,13 +228,13 @@ Section Top.
     apply andb_true_iff in Hcw as [_ Hsn].
     unfold rpc_request, srpc_req. cbn [iter_doc]. unfold rpc_go. cbn [num_of].
     assert (Hname : match skey c st (sg_name s) with
-                    | JStr s0 => Ok (Some s0)
-                    | JBytes b => match utf8_dec b with Some n => Ok (Some n) | None => Crash UnicodeError end
-                    | _ => Ok None
-                    end = Ok (Some (sg_name s))).
+                    | JStr s0 => Some (Some s0)
+                    | JBytes b => match utf8_dec b with Some n => Some (Some n) | None => None end
+                    | _ => Some None
+                    end = Some (Some (sg_name s))).
     { unfold skey. destruct (msgpack c && st_key_bin st); [|reflexivity].
       rewrite (utf8_bytes_dec _ Hsn). reflexivity. }
-    rewrite Hname, Hfind. fold U'. rewrite spositional_eq.
+    rewrite Hname, Hfind. fold U'. cbn [jv_is_null andb]. rewrite spositional_eq.
     pose proof (d2o_positional c U' false st (leaf_dec c) Hwf (fun E => ltac:(discriminate E))
                                (fun nillable k l => leaf_dec_spec c st nillable k l)
                                (leaf_dec_null c) (norm_key_spec c st) (key_name_spec c st)
